@@ -9,36 +9,36 @@ From FV Require Import Core.Syntax Core.Typing Proofs.TypingP.
 Import ListNotations.
 
 Theorem C03_context_closure :
-  forall p, check_prog p = TOk tt ->
-  forall f e, In f p -> occurs e (fbody f) -> exists G t, check_expr (map sig_of p) G e = TOk t.
+  forall structs p, check_prog structs p = TOk tt ->
+  forall f e, In f p -> occurs e (fbody f) -> exists G t, check_expr structs (map sig_of p) G e = TOk t.
 Proof. exact prog_every_expr_typed. Qed.
 Print Assumptions C03_context_closure.
 
 Theorem C03_subexpressions_typed :
-  forall sigs G e t, check_expr sigs G e = TOk t -> forall e', subexpr e' e -> exists t', check_expr sigs G e' = TOk t'.
+  forall structs sigs G e t, check_expr structs sigs G e = TOk t -> forall e', subexpr e' e -> exists t', check_expr structs sigs G e' = TOk t'.
 Proof. exact subexpr_typed. Qed.
 Print Assumptions C03_subexpressions_typed.
 
 (* arithmetic / ordering between different numeric types is never well typed *)
 Theorem C03_rule_operands :
-  forall sigs G o a b t,
-    (o = Add \/ o = Sub \/ o = Mul \/ o = Div \/ o = Mod -> check_expr sigs G (EBin o a b) = TOk t ->
-       exists x, check_expr sigs G a = TOk (TInt x) /\ check_expr sigs G b = TOk (TInt x) /\ t = TInt x) /\
-    (o = Lt \/ o = Le \/ o = Gt \/ o = Ge -> check_expr sigs G (EBin o a b) = TOk t ->
-       exists x, check_expr sigs G a = TOk (TInt x) /\ check_expr sigs G b = TOk (TInt x) /\ t = TBool).
+  forall structs sigs G o a b t,
+    (o = Add \/ o = Sub \/ o = Mul \/ o = Div \/ o = Mod -> check_expr structs sigs G (EBin o a b) = TOk t ->
+       exists x, check_expr structs sigs G a = TOk (TInt x) /\ check_expr structs sigs G b = TOk (TInt x) /\ t = TInt x) /\
+    (o = Lt \/ o = Le \/ o = Gt \/ o = Ge -> check_expr structs sigs G (EBin o a b) = TOk t ->
+       exists x, check_expr structs sigs G a = TOk (TInt x) /\ check_expr structs sigs G b = TOk (TInt x) /\ t = TBool).
 Proof. intros. split; [apply rule_arith_operands|apply rule_order_operands]. Qed.
 Print Assumptions C03_rule_operands.
 
 (* conditions and operands of logical operators are bool *)
 Theorem C03_rule_bool :
-  forall sigs,
-    (forall ret inl G c a b G', check_stmt sigs ret inl G (SIf c a b) = TOk G' -> check_expr sigs G c = TOk TBool) /\
-    (forall ret inl G c a G', check_stmt sigs ret inl G (SWhile c a) = TOk G' -> check_expr sigs G c = TOk TBool) /\
-    (forall G o a b t, o = And \/ o = Or -> check_expr sigs G (EBin o a b) = TOk t ->
-       check_expr sigs G a = TOk TBool /\ check_expr sigs G b = TOk TBool /\ t = TBool) /\
-    (forall G a t, check_expr sigs G (EUn Not a) = TOk t -> check_expr sigs G a = TOk TBool /\ t = TBool).
+  forall structs sigs,
+    (forall ret inl G c a b G', check_stmt structs sigs ret inl G (SIf c a b) = TOk G' -> check_expr structs sigs G c = TOk TBool) /\
+    (forall ret inl G c a G', check_stmt structs sigs ret inl G (SWhile c a) = TOk G' -> check_expr structs sigs G c = TOk TBool) /\
+    (forall G o a b t, o = And \/ o = Or -> check_expr structs sigs G (EBin o a b) = TOk t ->
+       check_expr structs sigs G a = TOk TBool /\ check_expr structs sigs G b = TOk TBool /\ t = TBool) /\
+    (forall G a t, check_expr structs sigs G (EUn Not a) = TOk t -> check_expr structs sigs G a = TOk TBool /\ t = TBool).
 Proof.
-  intros sigs. refine (conj _ (conj _ (conj _ _))).
+  intros structs sigs. refine (conj _ (conj _ (conj _ _))).
   - apply rule_condition_bool.
   - apply rule_loop_condition_bool.
   - intros; eapply rule_logical_operands; eauto.
@@ -48,24 +48,24 @@ Print Assumptions C03_rule_bool.
 
 (* calls: the callee is a declared function, the argument count and every argument type match *)
 Theorem C03_rule_call :
-  forall sigs G f es t, check_expr sigs G (ECall f es) = TOk t ->
+  forall structs sigs G f es t, check_expr structs sigs G (ECall f es) = TOk t ->
     exists pts, nth_error sigs f = Some (pts, t) /\ length es = length pts /\
-                Forall2 (fun e pt => check_expr sigs G e = TOk pt) es pts.
+                Forall2 (fun e pt => check_expr structs sigs G e = TOk pt) es pts.
 Proof. exact rule_call. Qed.
 Print Assumptions C03_rule_call.
 
 (* names: used names are declared, a name is not declared twice in one scope; initialisers and assignments
    have exactly the declared type (no implicit narrowing); literals fit their type *)
 Theorem C03_rule_names_and_assignment :
-  forall sigs,
-    (forall G x t, check_expr sigs G (EVar x) = TOk t -> tlookup x G = Some t) /\
-    (forall ret inl G x t e G', check_stmt sigs ret inl G (SLet x t e) = TOk G' ->
-       in_current x G = false /\ check_expr sigs G e = TOk t /\ t <> TVoid) /\
-    (forall ret inl G x e G', check_stmt sigs ret inl G (SAssign x e) = TOk G' ->
-       exists t, tlookup x G = Some t /\ check_expr sigs G e = TOk t) /\
-    (forall G t v t', check_expr sigs G (ELit t v) = TOk t' -> in_range t v = true /\ t' = TInt t).
+  forall structs sigs,
+    (forall G x t, check_expr structs sigs G (EVar x) = TOk t -> tlookup x G = Some t) /\
+    (forall ret inl G x t e G', check_stmt structs sigs ret inl G (SLet x t e) = TOk G' ->
+       in_current x G = false /\ check_expr structs sigs G e = TOk t /\ t <> TVoid) /\
+    (forall ret inl G x e G', check_stmt structs sigs ret inl G (SAssign x e) = TOk G' ->
+       exists t, tlookup x G = Some t /\ check_expr structs sigs G e = TOk t) /\
+    (forall G t v t', check_expr structs sigs G (ELit t v) = TOk t' -> in_range t v = true /\ t' = TInt t).
 Proof.
-  intros sigs. refine (conj _ (conj _ (conj _ _))).
+  intros structs sigs. refine (conj _ (conj _ (conj _ _))).
   - apply rule_var_defined.
   - apply rule_let.
   - apply rule_assign.
@@ -75,9 +75,9 @@ Print Assumptions C03_rule_names_and_assignment.
 
 (* returns: a value of exactly the declared type, and never a bare `return;` in a non-void function *)
 Theorem C03_rule_return :
-  forall sigs ret inl G G',
-    (forall e, check_stmt sigs ret inl G (SReturn (Some e)) = TOk G' -> ret <> TVoid /\ check_expr sigs G e = TOk ret) /\
-    (check_stmt sigs ret inl G (SReturn None) = TOk G' -> ret = TVoid).
+  forall structs sigs ret inl G G',
+    (forall e, check_stmt structs sigs ret inl G (SReturn (Some e)) = TOk G' -> ret <> TVoid /\ check_expr structs sigs G e = TOk ret) /\
+    (check_stmt structs sigs ret inl G (SReturn None) = TOk G' -> ret = TVoid).
 Proof. intros. split; [intros e; apply rule_return_value|apply rule_return_missing_value]. Qed.
 Print Assumptions C03_rule_return.
 
@@ -88,6 +88,6 @@ Definition sample : prog :=
     {| fparams := []; fret := TVoid;
        fbody := SSeq (SLet 3 (TInt I32) (ECall 0 [ELit I32 2%Z; ELit I32 5%Z]))
                      (SWhile (EBin Lt (EVar 3) (ELit I32 9%Z)) (SSeq (SAssign 3 (EBin Add (EVar 3) (ELit I32 1%Z))) (SPrint [EVar 3]))) |} ].
-Theorem C03_nonvacuous : check_prog sample = TOk tt.
+Theorem C03_nonvacuous : check_prog [[I32; U8]] sample = TOk tt.
 Proof. vm_compute. reflexivity. Qed.
 Print Assumptions C03_nonvacuous.
